@@ -12,17 +12,22 @@ theorem holdsD_shut {d : Dev} (hk : d.kind = .processor) (hs : d.shutDown = true
   unfold holdsD; simp [hk, hs]
 
 /-- no holder other than `x` has the asset id of `x` -/
-theorem aid_ne_of_holder {E N : List Nat} {w : World} (h : G E N w) {x : Nat} (hx : x < w.devs.length)
+theorem aid_ne_of_holder {E N A : List Nat} {w : World} (h : G E N A w) {x : Nat} (hx : x < w.devs.length)
     (hnx : holdsD (w.dev x) = none) :
     ∀ d p, holdsD (w.dev d) = some p → d ∉ E → (w.dev d).aid ≠ (w.dev x).aid := by
   intro d p hd _ he
-  have := h.s1.aid_inj (holdsD_lt hd) hx he
+  have := h.sc.aid_inj (holdsD_lt hd) hx he
   subst this
   rw [hnx] at hd; cases hd
 
-theorem G.shutdownDevG {E N : List Nat} {w : World} (h : G E N w) (x : Nat)
+theorem notMem_A_of_proc {E N A : List Nat} {w : World} (h : G E N A w) {x : Nat}
+    (hk : (w.dev x).kind = .processor) : x ∉ A := fun hx => by
+  have := h.aok x hx
+  rw [hk] at this; cases this
+
+theorem G.shutdownDevG {E N A : List Nat} {w : World} (h : G E N A w) (x : Nat)
     (hk : (w.dev x).kind = .processor) (isF : Bool) (lost : Option Nat) :
-    G E N (w.shutdownDev x isF lost) := by
+    G E N A (w.shutdownDev x isF lost) := by
   have hx : x < w.devs.length := kind_lt (by rw [hk]; decide)
   unfold World.shutdownDev
   dsimp only
@@ -33,9 +38,9 @@ theorem G.shutdownDevG {E N : List Nat} {w : World} (h : G E N w) (x : Nat)
       exact h.cancel _ (aid_ne_of_holder h hx (holdsD_shut hk hsd))
     · exact h
   · -- not yet shut down
-    have h1 : G E N (w.setDev x { w.dev x with shutDown := true }) := by
+    have h1 : G E N A (w.setDev x { w.dev x with shutDown := true }) := by
       refine h.setDev x _ rfl (fun q hq => h.valid.dev x q hq) (fun _ h => h) (fun _ h => h)
-        (Or.inr ?_) (Or.inr ?_)
+        (Or.inr (Or.inr (fun n => ?_))) (Or.inr ?_)
       · intro hacc
         rw [accB_false_of_shut (d := { w.dev x with shutDown := true }) rfl hk] at hacc
         cases hacc
@@ -48,7 +53,7 @@ theorem G.shutdownDevG {E N : List Nat} {w : World} (h : G E N w) (x : Nat)
     have hx1 : x < w1.devs.length := by rw [← hw1]; simpa using hx
     have hno := aid_ne_of_holder h1 hx1 (by rw [hd1]; exact holdsD_shut hk rfl)
     have haid : (w1.dev x).aid = (w.dev x).aid := by rw [hd1]
-    have h2 : G E N (if isF then w1.envOp (.cancel (w.dev x).aid) else w1.envOp (.pause (w.dev x).aid)) := by
+    have h2 : G E N A (if isF then w1.envOp (.cancel (w.dev x).aid) else w1.envOp (.pause (w.dev x).aid)) := by
       rw [← haid]
       split
       · exact h1.cancel _ hno
@@ -56,15 +61,15 @@ theorem G.shutdownDevG {E N : List Nat} {w : World} (h : G E N w) (x : Nat)
     generalize (if isF then w1.envOp (.cancel (w.dev x).aid) else w1.envOp (.pause (w.dev x).aid)) = w2 at h2
     refine G.foldl _ (fun w k hw => hw.addRes _) _ ?_
     apply G.setWaiting
-    refine h2.setDev_irrel x _ ?_ ?_ ?_ ?_ ?_ ?_
-    all_goals (split <;> first | rfl | (intro _; rfl))
+    refine h2.setDev_irrel x _ ?_ ?_ ?_ ?_ ?_ ?_ ?_
+    all_goals (split <;> first | rfl | (intro _; rfl) | exact fun hh => Or.inl hh)
 
-theorem G.withLost {E N : List Nat} {w : World} (h : G E N w) (l : List Nat) :
-    G E N { w with lost := l } :=
+theorem G.withLost {E N A : List Nat} {w : World} (h : G E N A w) (l : List Nat) :
+    G E N A { w with lost := l } :=
   h.of_eq rfl rfl rfl rfl rfl
 
-theorem G.failDevG {E N : List Nat} {w : World} (h : G E N w) (x : Nat)
-    (hk : (w.dev x).kind = .processor) : G E N (w.failDev x) := by
+theorem G.failDevG {E N A : List Nat} {w : World} (h : G E N A w) (x : Nat)
+    (hk : (w.dev x).kind = .processor) : G E N A (w.failDev x) := by
   have hx : x < w.devs.length := kind_lt (by rw [hk]; decide)
   rw [World.failDev_eq_c13]
   unfold World.failPre
@@ -72,7 +77,7 @@ theorem G.failDevG {E N : List Nat} {w : World} (h : G E N w) (x : Nat)
   have hd1 : ({ w with lost := w.lost ++ w.lostLeaves x } : World).dev x = w.dev x := rfl
   have hl1 : ({ w with lost := w.lost ++ w.lostLeaves x } : World).devs.length = w.devs.length := rfl
   generalize ({ w with lost := w.lost ++ w.lostLeaves x } : World) = w1 at h1 hd1 hl1 ⊢
-  have h2 : G E (x :: N) (w1.modDev x (fun d => { d with part := none })) := by
+  have h2 : G E (x :: N) A (w1.modDev x (fun d => { d with part := none })) := by
     refine h1.modDev x _ rfl ?_ (fun _ h => h) (fun y hy => List.mem_cons_of_mem _ hy)
       (Or.inl (List.mem_cons_self ..)) (Or.inr (fun q hq => ⟨hq, Int.le_refl _, id⟩))
     intro q hq
@@ -98,21 +103,23 @@ theorem G.failDevG {E N : List Nat} {w : World} (h : G E N w) (x : Nat)
   have hl4 : (w3.addRec (.failure x w1.now (w.dev x).part)).devs.length = w.devs.length := hl3
   generalize w3.addRec (.failure x w1.now (w.dev x).part) = w4 at h4 hk4 hl4 ⊢
   have h5 := h4.shutdownDevG x hk4 true (w.dev x).part
-  refine h5.discharge x (fun y hy => (List.mem_cons.mp hy).imp id id) ?_
+  have hk5 : ((w4.shutdownDev x true (w.dev x).part).dev x).kind = .processor := by
+    rw [kind_of_st (C02V.st_shutdownDev w4 x true _)]; exact hk4
+  refine h5.discharge x (fun y hy => (List.mem_cons.mp hy).imp id id) (fun n => ?_)
+    (notMem_A_of_proc h5 hk5)
   have hsd := World.shutdownDev_shutDown w4 x true (w.dev x).part (by rw [hl4]; exact hx)
-  refine accB_false_of_shut hsd ?_
-  rw [kind_of_st (C02V.st_shutdownDev w4 x true _)]; exact hk4
+  exact accB_false_of_shut hsd hk5 n
 
 /-! ### restore -/
 
-theorem G.restoreDevG {E N : List Nat} {w : World} (h : G E N w) (x : Nat)
-    (hk : (w.dev x).kind = .processor) : G E N (w.restoreDev x) := by
+theorem G.restoreDevG {E N A : List Nat} {w : World} (h : G E N A w) (x : Nat)
+    (hk : (w.dev x).kind = .processor) : G E N A (w.restoreDev x) := by
   have hx : x < w.devs.length := kind_lt (by rw [hk]; decide)
   unfold World.restoreDev
   dsimp only
   split
   · exact h
-  · have h1 : G (x :: E) (x :: N) (w.setDev x { w.dev x with shutDown := false, lastRestore := some w.now }) :=
+  · have h1 : G (x :: E) (x :: N) A (w.setDev x { w.dev x with shutDown := false, lastRestore := some w.now }) :=
       h.setDev x _ rfl (fun q hq => h.valid.dev x q hq) (fun y hy => List.mem_cons_of_mem _ hy)
         (fun y hy => List.mem_cons_of_mem _ hy) (Or.inl (List.mem_cons_self ..))
         (Or.inl (List.mem_cons_self ..))
@@ -126,69 +133,79 @@ theorem G.restoreDevG {E N : List Nat} {w : World} (h : G E N w) (x : Nat)
         (.unpause (w.dev x).aid) = w2 at h2 hd2 hl2
     have hx2 : x < w2.devs.length := by rw [hl2]; exact hx
     have hk2 : (w2.dev x).kind = .processor := by rw [hd2]; exact hk
-    have h3 : G E N (if (w2.dev x).output.isSome then w2.schedulePass x 0
+    have h3 : G E N A (if (w2.dev x).output.isSome then w2.schedulePass x 0
         else if (w2.dev x).part.isNone then w2.notify x else w2) := by
       split
       · next ho =>
-        have h3 : G E (x :: N) (w2.schedulePass x 0) := G.schedulePassX h2
-        refine h3.discharge x (fun y hy => (List.mem_cons.mp hy).imp id id) ?_
+        have h3 : G E (x :: N) A (w2.schedulePass x 0) := G.schedulePassX h2
+        have hk3 : ((w2.schedulePass x 0).dev x).kind = .processor := by
+          rw [core_eq_dev_kind (schedulePass_core w2 x 0), hk2]
+        refine h3.discharge x (fun y hy => (List.mem_cons.mp hy).imp id id) (fun n => ?_)
+          (notMem_A_of_proc h3 hk3)
         obtain ⟨p, hp⟩ := Option.isSome_iff_exists.mp ho
-        refine accB_false_of_output (p := p) ?_ ?_
+        refine accB_false_of_output (p := p) ?_ ?_ n
         · rw [core_eq_dev_output (schedulePass_core w2 x 0)]; exact hp
-        · rw [core_eq_dev_kind (schedulePass_core w2 x 0), hk2]; rfl
+        · rw [hk3]; rfl
       · next ho =>
         have hnh : ∀ q, holdsD (w2.dev x) ≠ some q := by
           intro q hq
           rw [holdsD_output (by rw [hk2]; decide) hq] at ho
           simp at ho
-        have h3 : G E (x :: N) w2 :=
+        have h3 : G E (x :: N) A w2 :=
           h2.unexempt x (fun y hy => (List.mem_cons.mp hy).imp id id) (fun q hq => absurd hq (hnh q))
         split
         · exact h3.notify x (fun y hy => (List.mem_cons.mp hy).imp id id)
         · next hp =>
-          refine h3.discharge x (fun y hy => (List.mem_cons.mp hy).imp id id) ?_
+          refine h3.discharge x (fun y hy => (List.mem_cons.mp hy).imp id id) (fun n => ?_)
+            (notMem_A_of_proc h3 hk2)
           cases hpp : (w2.dev x).part with
           | none => rw [hpp] at hp; simp at hp
-          | some p => exact accB_false_of_part hpp (by rw [hk2]; rfl)
+          | some p => exact accB_false_of_part hpp (by rw [hk2]; rfl) n
     generalize (if (w2.dev x).output.isSome then w2.schedulePass x 0
         else if (w2.dev x).part.isNone then w2.notify x else w2) = w3 at h3
     refine G.foldl _ (fun w k hw => hw.addRes _) _ ?_
     split
-    · exact h3.modDev_irrel x _ rfl rfl rfl rfl (fun _ => rfl) rfl
+    · exact h3.modDev_irrel x _ rfl rfl (fun _ => rfl) rfl (fun _ => rfl) rfl
     · exact h3
 
-theorem G.releaseIfIdleG {E N : List Nat} {w : World} (h : G E N w) (x : Nat) :
-    G E N (w.releaseIfIdle x) := by
+theorem G.releaseIfIdleG {E N A : List Nat} {w : World} (h : G E N A w) (x : Nat) :
+    G E N A (w.releaseIfIdle x) := by
   unfold World.releaseIfIdle
   split
   · exact h.releaseReserved x
   · exact h
 
-theorem G.procResourceCbG {E N : List Nat} {w : World} (h : G E N w) (x : Nat) :
-    G E N (w.procResourceCb x) := by
+theorem G.procResourceCbG {E N A : List Nat} {w : World} (h : G E N A w) (x : Nat) :
+    G E N A (w.procResourceCb x) := by
   unfold World.procResourceCb
-  exact (h.modDev_irrel x _ rfl rfl rfl rfl (fun _ => rfl) rfl).notify x (fun y hy => Or.inr hy)
+  have h1 : G E (x :: N) A (w.modDev x (fun d => { d with waitingRes := false })) :=
+    h.modDev x _ rfl (fun q hq => h.valid.dev x q hq) (fun _ h => h)
+      (fun y hy => List.mem_cons_of_mem _ hy) (Or.inl (List.mem_cons_self ..))
+      (Or.inr (fun q hq => ⟨hq, Int.le_refl _, id⟩)) (fun hh => nomatch hh)
+  exact h1.notify x (fun y hy => (List.mem_cons.mp hy).imp id id)
 
-theorem G.setBlockG {E N : List Nat} {w : World} (h : G E N w) (x : Nat) (b : Bool) :
-    G E N (w.setBlock x b) := by
+theorem G.setBlockG {E N A : List Nat} {w : World} (h : G E N A w) (x : Nat) (b : Bool)
+    (hxA : x ∉ A) : G E N A (w.setBlock x b) := by
   unfold World.setBlock
   split
   · exact h
   · dsimp only
     by_cases hx : x < w.devs.length
-    · have h1 : G E (x :: N) (w.modDev x (fun d => { d with blockInput := b })) :=
+    · have h1 : G E (x :: N) A (w.modDev x (fun d => { d with blockInput := b })) :=
         h.modDev x _ rfl (fun q hq => h.valid.dev x q hq) (fun _ h => h)
           (fun y hy => List.mem_cons_of_mem _ hy) (Or.inl (List.mem_cons_self ..))
           (Or.inr (fun q hq => ⟨hq, Int.le_refl _, id⟩))
       split
       · exact h1.notify x (fun y hy => (List.mem_cons.mp hy).imp id id)
       · next hb =>
-        refine h1.discharge x (fun y hy => (List.mem_cons.mp hy).imp id id) ?_
+        refine h1.discharge x (fun y hy => (List.mem_cons.mp hy).imp id id) (fun n => ?_) hxA
         have hbt : b = true := by simpa using hb
         subst hbt
         rw [dev_modDev_same hx]
-        unfold accB
-        cases (w.dev x).kind <;> simp
+        have : accB0 n { w.dev x with blockInput := true } = false := by
+          unfold accB0
+          cases (w.dev x).kind <;> simp
+        unfold accB; rw [this]; rfl
     · rw [modDev_out_of_range (Nat.le_of_not_lt hx)]
       split
       · exact h.notify x (fun y hy => Or.inr hy)
@@ -204,8 +221,8 @@ theorem holdsD_maxParts (d : Dev) (m' : Option Int) (hb : budgetOK d = true) {q 
     · cases h
   all_goals exact h
 
-theorem G.adjustPartsG {E N : List Nat} {w : World} (h : G E N w) (x : Nat) (v : Int) :
-    G E N (w.adjustParts x v) := by
+theorem G.adjustPartsG {E N A : List Nat} {w : World} (h : G E N A w) (x : Nat) (v : Int) :
+    G E N A (w.adjustParts x v) := by
   unfold World.adjustParts
   dsimp only
   split
@@ -215,10 +232,10 @@ theorem G.adjustPartsG {E N : List Nat} {w : World} (h : G E N w) (x : Nat) (v :
     · -- the budget was exhausted: new attempt
       apply G.schedulePassX
       exact h.setDev x _ rfl (fun q hq => h.valid.dev x q hq) (fun y hy => List.mem_cons_of_mem _ hy)
-        (fun _ h => h) (Or.inr id) (Or.inl (List.mem_cons_self ..))
+        (fun _ h => h) (Or.inr (Or.inr (fun _ => id))) (Or.inl (List.mem_cons_self ..))
     · next hne =>
       refine h.setDev x _ rfl (fun q hq => h.valid.dev x q hq) (fun _ h => h) (fun _ h => h)
-        (Or.inr id) (Or.inr ?_)
+        (Or.inr (Or.inr (fun _ => id))) (Or.inr ?_)
       intro q hq
       have hb : budgetOK (w.dev x) = true := by
         unfold budgetOK; rw [hm]
@@ -226,11 +243,11 @@ theorem G.adjustPartsG {E N : List Nat} {w : World} (h : G E N w) (x : Nat) (v :
         omega
       exact ⟨holdsD_maxParts _ _ hb hq, Int.le_refl _, id⟩
 
-theorem G.initDevG {E N : List Nat} {w : World} (h : G E N w) (x : Nat) :
-    G E N (w.initDev x) := by
+theorem G.initDevG {E N A : List Nat} {w : World} (h : G E N A w) (x : Nat) :
+    G E N A (w.initDev x) := by
   unfold World.initDev
-  have h1 := h.modDev_irrel x (fun d => { d with inited := true, val := d.val.reset }) rfl rfl rfl rfl
-    (fun _ => rfl) rfl
+  have h1 := h.modDev_irrel x (fun d => { d with inited := true, val := d.val.reset }) rfl rfl
+    (fun _ => rfl) rfl (fun _ => rfl) rfl
   generalize w.modDev x (fun d => { d with inited := true, val := d.val.reset }) = w1 at h1
   dsimp only
   split
@@ -238,7 +255,7 @@ theorem G.initDevG {E N : List Nat} {w : World} (h : G E N w) (x : Nat) :
   · exact h1
   · exact h1
   · exact h1
-  · exact (h1.setWaiting x true true).modDev_irrel x _ rfl rfl rfl rfl (fun _ => rfl) rfl
+  · exact (h1.setWaiting x true true).modDev_irrel x _ rfl rfl (fun _ => rfl) rfl (fun _ => rfl) rfl
   · exact (h1.setWaiting x true true).scheduleFinish x
   · exact h1.setWaiting x true true
 
